@@ -208,6 +208,15 @@ func (ks *KeyStorage) UnmarshalBinary(data []byte) error {
 		return xerrors.NewTaggedf[VersionMismatchTag]("key storage version mismatch")
 	}
 
+	// a map entry without a value decodes to a nil slot, which would be dereferenced on the key retrieval
+	for slotID, slot := range ks.underlying.GetKeySlots() {
+		if slot == nil {
+			ks.underlying.Reset()
+
+			return fmt.Errorf("failed to unmarshal key storage: slot '%s' is empty", slotID)
+		}
+	}
+
 	return nil
 }
 
